@@ -536,6 +536,18 @@ def c12_oracle(w, rec):
                 continue                                  # a named source that is a symbolic link: content copied, link removed
             return "mutating call %s%s targets %s outside the storage root and the staging root" % (
                 op[0], "" if ok else " (failed %s)" % errno, p)
+    # no operation stores anything beneath the root of ANOTHER object of the main repository
+    own = d.get("N") or (d["mobj"]["root"] if d.get("mobj") else None)
+    for op, ok, injected, errno in rec["calls"]:
+        if not ok or op[0] in ("rmdir",):
+            continue
+        for p in op_targets(op):
+            if not isinstance(p, str) or under(p, w.S):
+                continue
+            for o in pre["objs"]:
+                if o["root"] != own and under(p, o["root"]) and p != o["root"] and under(o["root"], w.root) \
+                        and not (own and under(o["root"], own)):
+                    return "mutating call %s targets %s beneath the root of another object (%s)" % (op[0], p, o["root"])
     if pre["sentinel"] != post["sentinel"]:
         return "the tree around the two roots changed: %r" % (diff_snap(pre["sentinel"], post["sentinel"]),)
     for where, sn in (("storage root", post["main"]), ("staging root", post["stg"])):
@@ -987,6 +999,19 @@ def gen_history(rng, w, n_random, stats):
                   dict(commit(xid, inner), hostile="in-staging"),
                   {"op": rng.choice(["reset_all", "purge"]), "id": victim, "hostile": "in-staging"},
                   {"op": "reset_all", "id": xid, "hostile": "in-staging"}]
+    # an object whose declaration names a version this rocfl does not know (0=ocfl_object_2.0): still an object root;
+    # new objects whose root lies beneath it must be refused and nothing may be written below it
+    if Pid is not None and rng.random() < 0.8:
+        ver = rng.choice(["2.0", "1.2", "1.10"])
+        stats["hostile_foreign_declaration"] = stats.get("hostile_foreign_declaration", 0) + 1
+        steps.append({"op": "redeclare", "id": Pid, "version": ver})
+        inners = ["p/q/r/inner-%d" % rng.randrange(100), "p/q/r/v1/content/deep/in"]
+        for inner in inners:
+            xid = ("z:" + inner) if lay == "0006" else inner
+            steps += [{"op": "new", "id": xid, "hostile": "below-foreign"},
+                      {"op": "cp_ext", "id": xid, "src": [src_file()], "dst": "h.txt", "hostile": "below-foreign"},
+                      dict(commit(xid, inner), hostile="below-foreign"),
+                      {"op": "reset_all", "id": xid, "hostile": "below-foreign"}]
     # purge / reset of ids that were never created and map onto other things
     onto = [x for x in pool if x[1] in (".", "a/v1/content", "a/v1/content/deep", "extensions", "p", "x:.", "x:a/v1/content", "b:1", "y:p", "../x",
                                         "a/v1", "extensions/rocfl-staging/x")]
@@ -1179,6 +1204,18 @@ def run_history(ctx, env, hno, layout, ext, ext_missing, seed, n_random, stats, 
     n = 0
     while n < len(steps):
         step = steps[n]
+        if step["op"] == "redeclare":
+            # a third party (a newer client) has rewritten the declaration of a committed object to a version this
+            # rocfl does not know: the directory is an object root all the same and nothing may be stored beneath it
+            a_ = find_obj(pre["objs"], step["id"])
+            if a_ is not None:
+                for dn in a_["decls"]:
+                    os.unlink(os.path.join(a_["root"], dn))
+                with open(os.path.join(a_["root"], OBJ_DECL + step["version"]), "w") as f:
+                    f.write("ocfl_object_%s\n" % step["version"])
+                pre = w.state()
+            n += 1
+            continue
         if step["op"] == "plant":
             a_ = find_obj(pre["objs"], step["from"])
             if a_ is not None:
